@@ -1,10 +1,11 @@
-import DaskModel.Lemmas.Shuffle
+import DaskModel.Lemmas.ShufflePerm
 /-! # C40 — sorting, shuffling and de-duplication keep exactly the right rows (theorems)
 
 Model: `Model/Shuffle.lean`. `h` (pandas' `hash_object`) is abstract: a row carries its `_partitions`
 value `target = h(key) % npartitions_out`, so "equal keys ⇒ equal target" is the only fact used. -/
 namespace Dask.C40
 open Dask.Shuffle
+variable {α : Type}
 
 /-- **staged_route** (tuple form): for every starting position, after stages `0 … S-1` of the task shuffle a
     row with reduced target `t` sits at the position whose digit tuple is the base-`k` expansion of `t`. -/
@@ -35,14 +36,14 @@ theorem stageIndex_hashing (h stage k n nfinal : Nat) (h0 : nfinal ≠ 0) (hne :
 
 /-- **SimpleShuffle**: exactly `n` outputs; output `p` is the subsequence, in input order, of all rows
     whose target is `p` modulo `n` (rows, multiplicity and relative order) -/
-theorem simple_shuffle_exact (parts : List (List Row)) (n p : Nat) (hp : p < n) :
+theorem simple_shuffle_exact (parts : List (List (Nat × α))) (n p : Nat) (hp : p < n) :
     (simpleShuffle parts n).length = n ∧
     (simpleShuffle parts n)[p]? = some (parts.flatten.filter fun r => r.1 % n == p) :=
   ⟨simpleShuffle_length parts n, simpleShuffle_getElem? parts n p hp⟩
 
 /-- **colocated** (simple): a row of the input lands in output `target % n` and nowhere else -/
-theorem simple_shuffle_colocated (parts : List (List Row)) (n p : Nat) (hp : p < n) (r : Row)
-    (out : List Row) (hout : (simpleShuffle parts n)[p]? = some out) :
+theorem simple_shuffle_colocated (parts : List (List (Nat × α))) (n p : Nat) (hp : p < n) (r : Nat × α)
+    (out : List (Nat × α)) (hout : (simpleShuffle parts n)[p]? = some out) :
     r ∈ out ↔ r ∈ parts.flatten ∧ r.1 % n = p := by
   rw [simpleShuffle_getElem? parts n p hp] at hout
   cases hout
@@ -136,9 +137,9 @@ theorem set_partitions_pre_spec (divs : List Nat) (v : Nat) (naLast : Bool) (d0 
 /-- **staged shuffle, frame level (soundness)**: every row found in output partition `p` of the staged task
     shuffle has target `p` — for every frame/partitioning, `k ≥ 1`, `stages` with `k^stages ≥ npartitions`,
     whether or not the number of partitions changes. -/
-theorem task_shuffle_sound (parts : List (List Row)) (nOut k S : Nat) (hk : 0 < k) (hkS : parts.length ≤ k ^ S)
+theorem task_shuffle_sound (parts : List (List (Nat × α))) (nOut k S : Nat) (hk : 0 < k) (hkS : parts.length ≤ k ^ S)
     (htarget : ∀ rows ∈ parts, ∀ r ∈ rows, r.1 < nOut)
-    (p : Nat) (out : List Row) (hout : (taskShuffle parts nOut k S)[p]? = some out) : ∀ r ∈ out, r.1 = p := by
+    (p : Nat) (out : List (Nat × α)) (hout : (taskShuffle parts nOut k S)[p]? = some out) : ∀ r ∈ out, r.1 = p := by
   intro r hr
   unfold taskShuffle at hout
   simp only at hout
@@ -175,9 +176,9 @@ theorem task_shuffle_sound (parts : List (List Row)) (nOut k S : Nat) (hk : 0 < 
 
 /-- **staged shuffle, frame level (completeness)**: with an unchanged number of partitions every input row whose
     target is a valid partition number is found in the output partition with that number (no row is lost). -/
-theorem task_shuffle_complete (parts : List (List Row)) (k S : Nat) (hk : 0 < k) (hkS : parts.length ≤ k ^ S)
+theorem task_shuffle_complete (parts : List (List (Nat × α))) (k S : Nat) (hk : 0 < k) (hkS : parts.length ≤ k ^ S)
     (htarget : ∀ rows ∈ parts, ∀ r ∈ rows, r.1 < parts.length)
-    (rows : List Row) (hrows : rows ∈ parts) (r : Row) (hr : r ∈ rows) :
+    (rows : List (Nat × α)) (hrows : rows ∈ parts) (r : Nat × α) (hr : r ∈ rows) :
     ∃ out, (taskShuffle parts parts.length k S)[r.1]? = some out ∧ r ∈ out := by
   obtain ⟨q, hq⟩ := List.mem_iff_getElem?.mp hrows
   have hqlt : q < parts.length := (List.getElem?_eq_some_iff.mp hq).1
@@ -198,12 +199,129 @@ theorem task_shuffle_complete (parts : List (List Row)) (k S : Nat) (hk : 0 < k)
 
 
 /-- **colocated** (frame level): rows with the same key (hence the same target) end in the same output partition -/
-theorem task_shuffle_colocated (parts : List (List Row)) (nOut k S : Nat) (hk : 0 < k) (hkS : parts.length ≤ k ^ S)
-    (htarget : ∀ rows ∈ parts, ∀ r ∈ rows, r.1 < nOut) (p₁ p₂ : Nat) (o₁ o₂ : List Row)
+theorem task_shuffle_colocated (parts : List (List (Nat × α))) (nOut k S : Nat) (hk : 0 < k) (hkS : parts.length ≤ k ^ S)
+    (htarget : ∀ rows ∈ parts, ∀ r ∈ rows, r.1 < nOut) (p₁ p₂ : Nat) (o₁ o₂ : List (Nat × α))
     (h₁ : (taskShuffle parts nOut k S)[p₁]? = some o₁) (h₂ : (taskShuffle parts nOut k S)[p₂]? = some o₂)
-    (r₁ r₂ : Row) (hr₁ : r₁ ∈ o₁) (hr₂ : r₂ ∈ o₂) (hsame : r₁.1 = r₂.1) : p₁ = p₂ := by
+    (r₁ r₂ : Nat × α) (hr₁ : r₁ ∈ o₁) (hr₂ : r₂ ∈ o₂) (hsame : r₁.1 = r₂.1) : p₁ = p₂ := by
   rw [← task_shuffle_sound parts nOut k S hk hkS htarget p₁ o₁ h₁ r₁ hr₁,
     ← task_shuffle_sound parts nOut k S hk hkS htarget p₂ o₂ h₂ r₂ hr₂, hsame]
+
+
+/-! ### the staged shuffle, exactly (rows, multiplicity, order) -/
+
+/-- **task_shuffle_exact** — the whole `TaskShuffle._layer` (all stages over `k^S` positions, empty padding, last
+    stage, and the `shuffle_group_2` / `shuffle_group_get` resize when the partition count changes): there are
+    exactly `nOut` outputs and output `p` is the sub-sequence of the concatenated input — same relative order
+    (partition by partition, row by row), same multiplicity — of the rows with `target % n = p` (count unchanged)
+    resp. `target = p` (count changed). For every frame, `k ≥ 1`, `S` with `k^S ≥ npartitions_input ≥ 1`. -/
+theorem task_shuffle_exact (parts : List (List (Nat × α))) (nOut k S : Nat) (hk : 0 < k)
+    (hkS : parts.length ≤ k ^ S) (hpos : 0 < parts.length) (p : Nat) (hp : p < nOut) :
+    (taskShuffle parts nOut k S).length = nOut ∧
+    (taskShuffle parts nOut k S)[p]? = some (parts.flatten.filter fun r =>
+      if nOut = parts.length then r.1 % parts.length == p else r.1 == p) :=
+  ⟨taskShuffle_length parts nOut k S hkS, taskShuffle_getElem? parts nOut k S hk hkS hpos p hp⟩
+
+/-- with valid targets (`_partitions < npartitions_out`, what `AssignPartitioningIndex` and `set_partitions_pre`
+    produce) output `p` is the ordered sub-sequence of the rows with target `p`, whether or not the count changes -/
+theorem task_shuffle_exact_valid (parts : List (List (Nat × α))) (nOut k S : Nat) (hk : 0 < k)
+    (hkS : parts.length ≤ k ^ S) (hpos : 0 < parts.length)
+    (htarget : ∀ rows ∈ parts, ∀ r ∈ rows, r.1 < nOut) (p : Nat) (hp : p < nOut) :
+    (taskShuffle parts nOut k S)[p]? = some (parts.flatten.filter fun r => r.1 == p) :=
+  taskShuffle_getElem?_valid parts nOut k S hk hkS hpos htarget p hp
+
+/-- the order of the rows inside an output partition is the order of the input: every output is a `Sublist`
+    of the concatenated input -/
+theorem task_shuffle_order (parts : List (List (Nat × α))) (nOut k S : Nat) (hk : 0 < k)
+    (hkS : parts.length ≤ k ^ S) (hpos : 0 < parts.length) (p : Nat) (out : List (Nat × α))
+    (hout : (taskShuffle parts nOut k S)[p]? = some out) : out.Sublist parts.flatten := by
+  have hp : p < nOut := by
+    have := (List.getElem?_eq_some_iff.mp hout).1
+    rwa [taskShuffle_length parts nOut k S hkS] at this
+  rw [taskShuffle_getElem? parts nOut k S hk hkS hpos p hp] at hout
+  cases hout
+  exact List.filter_sublist
+
+/-- staging is invisible: with valid targets the staged shuffle returns precisely what `SimpleShuffle` returns -/
+theorem task_shuffle_eq_simple (parts : List (List (Nat × α))) (nOut k S : Nat) (hk : 0 < k)
+    (hkS : parts.length ≤ k ^ S) (hpos : 0 < parts.length)
+    (htarget : ∀ rows ∈ parts, ∀ r ∈ rows, r.1 < nOut) :
+    taskShuffle parts nOut k S = simpleShuffle parts nOut := by
+  apply List.ext_getElem?
+  intro p
+  by_cases hp : p < nOut
+  · rw [taskShuffle_getElem?_valid parts nOut k S hk hkS hpos htarget p hp, simpleShuffle_getElem? parts nOut p hp]
+    congr 1
+    apply List.filter_congr
+    intro r hr
+    obtain ⟨rows, hrows, hrr⟩ := List.mem_flatten.mp hr
+    rw [Nat.mod_eq_of_lt (htarget rows hrows r hrr)]
+  · rw [List.getElem?_eq_none (by rw [taskShuffle_length parts nOut k S hkS]; omega),
+      List.getElem?_eq_none (by rw [simpleShuffle_length]; omega)]
+
+/-- **multiset of rows, unchanged partition count**: the concatenated outputs are a permutation of the
+    concatenated inputs — no hypothesis on the targets (a target `≥ n` is reduced modulo `n`, as the code does) -/
+theorem task_shuffle_perm_same_count (parts : List (List (Nat × α))) (k S : Nat) (hk : 0 < k)
+    (hkS : parts.length ≤ k ^ S) (hpos : 0 < parts.length) :
+    (taskShuffle parts parts.length k S).flatten.Perm parts.flatten := by
+  have h := eq_map_range_of_getElem? (taskShuffle parts parts.length k S) parts.length
+    (fun p => parts.flatten.filter fun r => r.1 % parts.length == p)
+    (taskShuffle_length parts _ k S hkS)
+    (fun p hp => by
+      rw [taskShuffle_getElem? parts _ k S hk hkS hpos p hp]
+      simp)
+  rw [h]
+  exact classes_mod_flatten_perm (fun r => r.1) parts.flatten parts.length hpos
+
+/-- **multiset of rows, changed partition count**: the concatenated outputs are a permutation of the input rows
+    whose target names an output partition; rows with `target ≥ nOut` are dropped (never fetched by
+    `shuffle_group_get`) -/
+theorem task_shuffle_perm_resize (parts : List (List (Nat × α))) (nOut k S : Nat) (hk : 0 < k)
+    (hkS : parts.length ≤ k ^ S) (hpos : 0 < parts.length) (hne : nOut ≠ parts.length) :
+    (taskShuffle parts nOut k S).flatten.Perm (parts.flatten.filter fun r => decide (r.1 < nOut)) := by
+  have h := eq_map_range_of_getElem? (taskShuffle parts nOut k S) nOut
+    (fun p => parts.flatten.filter fun r => r.1 == p)
+    (taskShuffle_length parts _ k S hkS)
+    (fun p hp => by
+      rw [taskShuffle_getElem? parts _ k S hk hkS hpos p hp]
+      simp [hne])
+  rw [h]
+  exact classes_flatten_perm (fun r => r.1) parts.flatten nOut
+
+/-- **shuffle preserves the multiset of rows** (the statement's clause, staged task shuffle): with valid targets
+    the concatenated outputs are a permutation of the concatenated inputs, for every `nOut` -/
+theorem task_shuffle_perm (parts : List (List (Nat × α))) (nOut k S : Nat) (hk : 0 < k)
+    (hkS : parts.length ≤ k ^ S) (hpos : 0 < parts.length)
+    (htarget : ∀ rows ∈ parts, ∀ r ∈ rows, r.1 < nOut) :
+    (taskShuffle parts nOut k S).flatten.Perm parts.flatten := by
+  have hall : (parts.flatten.filter fun r => decide (r.1 < nOut)) = parts.flatten := by
+    apply List.filter_eq_self.mpr
+    intro r hr
+    obtain ⟨rows, hrows, hrr⟩ := List.mem_flatten.mp hr
+    simpa using htarget rows hrows r hrr
+  by_cases h : nOut = parts.length
+  · subst h; exact task_shuffle_perm_same_count parts k S hk hkS hpos
+  · have := task_shuffle_perm_resize parts nOut k S hk hkS hpos h
+    rwa [hall] at this
+
+/-- `SimpleShuffle` preserves the multiset of rows (targets are reduced modulo `n`) -/
+theorem simple_shuffle_perm (parts : List (List (Nat × α))) (n : Nat) (hn : 0 < n) :
+    (simpleShuffle parts n).flatten.Perm parts.flatten := by
+  have h := eq_map_range_of_getElem? (simpleShuffle parts n) n
+    (fun p => parts.flatten.filter fun r => r.1 % n == p) (simpleShuffle_length parts n)
+    (fun p hp => simpleShuffle_getElem? parts n p hp)
+  rw [h]
+  exact classes_mod_flatten_perm (fun r => r.1) parts.flatten n hn
+
+/-- membership form (soundness + completeness, also when the count changes): a row is in output `p` iff it is
+    an input row with target `p` -/
+theorem task_shuffle_mem_iff (parts : List (List (Nat × α))) (nOut k S : Nat) (hk : 0 < k)
+    (hkS : parts.length ≤ k ^ S) (hpos : 0 < parts.length)
+    (htarget : ∀ rows ∈ parts, ∀ r ∈ rows, r.1 < nOut) (p : Nat) (hp : p < nOut) (out : List (Nat × α))
+    (hout : (taskShuffle parts nOut k S)[p]? = some out) (r : Nat × α) :
+    r ∈ out ↔ r ∈ parts.flatten ∧ r.1 = p := by
+  rw [taskShuffle_getElem?_valid parts nOut k S hk hkS hpos htarget p hp] at hout
+  cases hout
+  simp only [List.mem_filter, beq_iff_eq]
 
 /-! ### non-vacuity / concrete behaviour -/
 example : routeTuple 3 3 11 (digits 5 3 3) = digits 11 3 3 := by decide
@@ -214,5 +332,22 @@ example : simpleShuffle [[(3, 0), (1, 1)], [(0, 2)], [(3, 3), (2, 4)]] 2 = [[(0,
 example : setPartitionsPre [2, 3, 5] (some 0) true true = 0 := by decide
 example : setPartitionsPre [2, 3, 5] (some 9) true true = 1 := by decide
 example : setPartitionsPre [2, 3, 5] (some 3) true true = 1 := by decide
+-- the hypotheses of `set_partitions_pre_spec` hold for a concrete division vector, and the conclusion is not void
+example : setPartitionsPre [2, 3, 5] (some 4) true true + 2 ≤ [2, 3, 5].length :=
+  (set_partitions_pre_spec [2, 3, 5] 4 true 2 5 (by decide) (by decide) rfl rfl).1
+-- `task_shuffle_exact` and its corollaries on concrete frames: 5 partitions, k = 2, S = 3 (2^3 ≥ 5)
+example : (5 : Nat) ≤ 2 ^ 3 := by decide
+-- unchanged count (targets < 5): rows keep the input order inside every output
+example : taskShuffle [[(4, 0), (1, 1)], [(0, 2), (4, 3)], [], [(3, 4), (1, 5), (4, 6)], [(2, 7)]] 5 2 3 =
+    [[(0, 2)], [(1, 1), (1, 5)], [(2, 7)], [(3, 4)], [(4, 0), (4, 3), (4, 6)]] := by decide
+-- changed count 5 → 3 (`shuffle_group_2` / `shuffle_group_get`)
+example : taskShuffle [[(2, 0), (1, 1)], [(0, 2), (2, 3)], [], [(0, 4), (1, 5), (2, 6)], [(2, 7)]] 3 2 3 =
+    [[(0, 2), (0, 4)], [(1, 1), (1, 5)], [(2, 0), (2, 3), (2, 6), (2, 7)]] := by decide
+-- changed count 3 → 5 with 2 stages of 2 (one padded position)
+example : taskShuffle [[(4, 0), (1, 1)], [(0, 2), (4, 3)], [(3, 4), (1, 5)]] 5 2 2 =
+    [[(0, 2)], [(1, 1), (1, 5)], [], [(3, 4)], [(4, 0), (4, 3)]] := by decide
+-- a target that names no output: reduced modulo n when the count is unchanged, dropped when it changes
+example : taskShuffle [[(7, 0)], [(1, 1)], [(0, 2)]] 3 2 2 = [[(0, 2)], [(7, 0), (1, 1)], []] := by decide
+example : taskShuffle [[(7, 0)], [(1, 1)], [(0, 2)]] 2 2 2 = [[(0, 2)], [(1, 1)]] := by decide
 
 end Dask.C40
